@@ -142,6 +142,7 @@ def jobs(tier):
         mk('C07', 'fw/fanin', S.forward_chain(3, topo='fanin'), witnesses=W),
         mk('C07', 'fw/evict', S.fw_evict(), witnesses=W),
         mk('C07', 'fw/chain3/timeout', S.forward_chain(3, topo='chain', timeout='1/4'), witnesses=W),
+        mk('C07', 'fw/deep4', S.fw_deep4(), witnesses=W),
         mk('C07', 'fw/evict/BADC', S.fw_evict(('B', 'A', 'D', 'C')), witnesses=W),
     ]
     if tier == 'thorough':
